@@ -78,6 +78,15 @@ PROPS = {
         "rule": "Content-Type in 7 values x Accept in {absent, 18 elements, all ordered pairs x 2 separators} x 7 body kinds; channel: every status 200..599 x {text, CAR} body. non-trivial: CAR content type with an Accept header present / non-200 status. distinct: hash of (op,args)",
         "trusted_base": ["model Http.lean mirrors carInbound.Accept, server.Handle and channel.Request by hand"],
     },
+    "C12": {
+        "manifest": {"text": "Theorems over all byte strings and any hash table H: C12_integrity / C12_integrity_decode (every block the decoder delivers - from valid, corrupted, truncated, spliced or arbitrary input - parses as a CID with nothing after it whose own multihash matches the block's bytes), C12_mismatch_is_error (a section whose bytes do not match its CID yields an error item, never a block), next_none_iff (the archive can only end cleanly on a section boundary), parseCid_split, and the varint round trips readStd_encode / readMf_encode (all n below 2^64 / 2^63). Correspondence at byte level: the Lean model re-encodes every generated archive (bytes must equal car.Encode's) and decodes every truncation point and every single-byte corruption (xor 01, 80, ff at every position) of it, plus splices and arbitrary inputs; go-car's CBOR header parser is modelled for the canonical header form only (elsewhere the model abstains on the header and still predicts the blocks). Independent oracle in the harness: every delivered block is re-hashed against its own CID, a truncation off a section boundary must produce an error.", "design_ref": "5.12", "note": "trusted: Lean kernel; hand-written model of car.Decode/Encode, LdRead/ReadNode, CidFromReader, Prefix.Sum (Model/Car.lean, Model/Varint.lean); SHA-256 is executable Lean validated against Go on every archive, other registered hash functions are known to the model only by their code (a placeholder digest), go-car's header CBOR decoder is modelled for the canonical form only"},
+        "obligations": ob("UcantoModel.Props.C12", "Car.C12_integrity", "Car.C12_integrity_decode", "Car.C12_mismatch_is_error", "Car.next_none_iff", "Car.parseCid_split", "Car.next_block_valid")
+                       + ob("UcantoModel.Lemmas.VarintLemmas", "Varint.readStd_encode", "Varint.readMf_encode", "Varint.readMf_suffix", "Varint.readStd_suffix"),
+        "mismatch_is_violation": False,
+        "rule": "archives: 0-3 roots, 0-6 blocks (quick; 0-24 thorough) of 0-320 bytes with CIDv1 raw/dag-cbor/multi-byte codec, CIDv0, identity, truncated digests, duplicate CIDs; per archive one round-trip case, one case holding the decode outcome at every truncation point, three cases holding the outcome of every single-byte corruption; plus splices / double corruptions / garbage. non-trivial: archive with at least one block / non-empty input. distinct: hash of (op,args)",
+        "trusted_base": ["hand-written model Car.lean / Varint.lean / Sha256.lean; tie = byte-level comparison of encode output and of the decode outcome at every truncation and corruption position"],
+        "assumptions": ["mutated archives are judged by self-consistency (delivered blocks re-hash to their own CID; off-boundary truncation errors), not by equality with the original: a flipped codec byte gives a different but self-consistent block"],
+    },
     "C16": {
         "manifest": {"text": "Lean theorems over all byte strings: resolveAbility/resolveResource/defaultDerives of the model equal the property's three grant relations (resolveAbility_spec, resolveResource_spec, defaultDerives_spec, plus no_partial_segment / only_three_forms); the model is tied to the Go functions by exhaustive enumeration of all string pairs over {a,b,A,/,*,:} up to total length 7 (quick) / 8 (thorough) plus random realistic strings, so any divergence of the code from the proved specification inside that space is a concrete failing pair.",
                      "design_ref": "5.16",
